@@ -3,12 +3,12 @@
 package main
 
 import (
-	"runtime/pprof"
-	"time"
 	"flag"
 	"fmt"
 	"os"
+	"runtime/pprof"
 	"sort"
+	"time"
 
 	"gedverif/internal/load"
 	"gedverif/internal/oblig"
